@@ -425,7 +425,9 @@ func exploreCase(c *drv.Ctx, i int64, kind string, idx []int, be e2.Backend, bou
 		budget = 2 * time.Second // this tree makes every scenario expensive: keep the run bounded
 	}
 	st, v := e2.Explore(name, be, bound, exp, 20000, budget)
-	if st.Diverged {
+	if st.InfraErr != "" {
+		c.Cap("an execution could not be run (infrastructure): " + tail(st.InfraErr, 200))
+	} else if st.Diverged {
 		c.Cap("in-process replay diverged: library state persists between executions of one process (such scenarios are decided by fresh-pairs, where every execution starts a new process)")
 	} else if st.Capped {
 		cappedSoFar++
@@ -741,7 +743,11 @@ func main() {
 				}
 				if err != nil {
 					// a Go runtime fatal error (e.g. concurrent map writes) is a finding of the free-running pass
-					key := "race-pass-process-failed"
+					if !strings.Contains(eb.String(), "go-qrllib") {
+						c.Cap("a race-pass process could not be run (infrastructure): " + err.Error())
+						continue
+					}
+					key := "race-pass-process-crashed:" + firstLibFrame(eb.String())
 					if strings.Contains(eb.String(), "fatal error: concurrent map") {
 						key = "fatal-concurrent-map-access:" + firstLibFrame(eb.String())
 					}
